@@ -1,6 +1,8 @@
 package checks
 
 import (
+	"encoding/json"
+
 	"verifharness/internal/kv"
 	"verifharness/internal/rng"
 	"verifharness/internal/sup"
@@ -21,7 +23,7 @@ func init() {
 		Prop: "C12", Level: "exploration",
 		Rule: "engine A histories through every write entry point (deletes, resurrections, xattr-only writes, purges, WithMeta writes with CAS above / below / far above the clock, collection drop) with view queries placed at PRNG-chosen points; four map functions have native Go twins evaluated over a KV read-back of every key, sorted with sg-bucket's JSONCollator then by id, parameters (key, range, inclusive_end, limit, descending, reduce _count/_sum, group, group_level) applied by an independent implementation; a freshly created identical view (full rebuild) must return the same rows as the incrementally maintained one; design documents are replaced mid-history; stale=ok / updateAfter queries are perturbations only; cell = (view, parameter shape, index age, bucket type)",
 		Assumptions: []string{"map functions are a fixed family of four (plus one replacement); the JS engine (otto) and sg-bucket's collator/reduce are trusted dependencies", "limit is not combined with reduce; the `keys` list parameter is not judged (sg-bucket returns one row per listed key)", "bodies flagged JSON are valid JSON objects/numbers; JSON-looking bytes are not written through raw entry points in this profile"},
-		Parts: []sup.Part{viewPart("views-random", 120, 2000, voNoMeta), viewPart("views-withmeta", 60, 1000, vo)},
+		Parts: []sup.Part{viewPart("views-random", 500, 8000, voNoMeta), viewPart("views-withmeta", 300, 5000, vo)},
 		Floor: func(tier string, m *sup.Merged) string {
 			if m.Counts["view_queries_judged"] < 2000 {
 				return "fewer than 2000 judged view queries"
@@ -40,7 +42,7 @@ func init() {
 		Prop: "C19", Level: "exploration",
 		Rule: "engine A histories over three collections sharing key names; at PRNG-chosen points a family of seven SQLite queries over $_keyspace (exact id/hex(body)/xattr values of every row, LIKE with a named parameter, ORDER BY .. LIMIT, a statement mentioning $_keyspace twice, comparisons on body->>'n', body->>'t', xattrs->'_sync'->>'seq') is executed through Next and NextBytes on in-memory (pre-recorded iterator) and on-disk (streaming iterator) buckets and compared with the same predicate evaluated natively over the KV read-back of that collection; cell = (query, number of live docs, tombstones present, bucket type)",
 		Assumptions: []string{"the query family is fixed; SQLite's own expression semantics are trusted", "queries over body properties are issued only while every live document of the collection holds valid JSON (a raw body makes SQLite's JSON operators fail for the whole statement)"},
-		Parts: []sup.Part{queryPart("queries-random", 150, 2500, qo, false), queryPart("queries-json-only", 100, 1500, qo, true)},
+		Parts: []sup.Part{queryPart("queries-random", 1500, 25000, qo, false), queryPart("queries-json-only", 1000, 15000, qo, true)},
 		Floor: func(tier string, m *sup.Merged) string {
 			if m.Counts["queries_judged"] < 2000 {
 				return "fewer than 2000 judged queries"
@@ -86,6 +88,13 @@ func viewPart(name string, quick, thorough int, o kvOpts) sup.Part {
 				install(op.Coll, alt) // a re-created collection has no design documents
 				age[op.Coll] = "fresh"
 				continue
+			}
+			if op.Kind == kv.KUpdate && op.Mode == "exponly" {
+				// Update keeps the old bytes but flags them JSON: on a raw body that yields "JSON" the JS side cannot
+				// parse, a corner no property pins (DESIGN §3.11); not generated in the view profile
+				if d := sim.Model[kv.DocKey{B: 0, C: op.Coll, K: op.Key}]; d != nil && d.Live() && !json.Valid(d.Body) {
+					continue
+				}
 			}
 			sim.Do(op)
 			switch r.Intn(12) {
